@@ -56,6 +56,9 @@ type persistLine struct {
 	TmpLen int    `json:"tmplen"`
 	Loaded string `json:"loaded"`
 	Msg    string `json:"msg"`
+	H      int64  `json:"h"`      // "commit": the height just committed
+	Saved  int64  `json:"saved"`  // "commit": the height of the state file on disk at that moment
+	Retain int64  `json:"retain"` // "commit": the RetainHeight the Commit answered
 }
 
 // PersistResult summarises the file-integrity part of C13.
@@ -64,6 +67,7 @@ type PersistResult struct {
 	Saves      int
 	Crashes    int
 	Violations []persistLine
+	Commits    int
 	Drift      int
 	Sample     any
 }
@@ -137,7 +141,15 @@ func CheckPersistFaults(c *core.Ctx, consts Consts) (*PersistResult, *tlc.Result
 	}
 	old, err := loadAbs(u, path)
 	if err != nil {
-		return nil, nil, fmt.Errorf("initial load failed: %v", err)
+		// observed behaviour of the real code, not an infrastructure problem: a save that reported
+		// success left a state file that cannot be loaded
+		fi, _ := os.Stat(path)
+		sz := 0
+		if fi != nil {
+			sz = int(fi.Size())
+		}
+		l := persistLine{K: "save", Limit: 1 << 30, Size: sz, Err: false, Loaded: "error", Msg: "load after a successful save: " + err.Error()}
+		return &PersistResult{Saves: 1, Violations: []persistLine{l}, Sample: l}, &tlc.Result{}, nil
 	}
 	fi, _ := os.Stat(path)
 	size := int(fi.Size())
@@ -235,17 +247,56 @@ func CheckPersistFaults(c *core.Ctx, consts Consts) (*PersistResult, *tlc.Result
 		res.Crashes++
 	}
 	os.Remove(path + ".tmp")
+	// a long run of blocks with saves far apart: whatever height the state file is at, the blocks
+	// above it must stay in Tendermint's block store, so the RetainHeight answered by Commit must not
+	// exceed the saved height + 1 (the time gate of maybePersistToDisk is steered through LastSaved)
+	{
+		a, lerr := app.LoadShutterAppFromFile(path)
+		if lerr != nil {
+			return nil, nil, fmt.Errorf("main file unreadable before the commit run: %v", lerr)
+		}
+		saved := a.LastBlockHeight
+		nBlocks := int64(330)
+		for i := int64(1); i <= nBlocks; i++ {
+			h := a.LastBlockHeight + 1
+			a.BeginBlock(abcitypes.RequestBeginBlock{Header: header(h)})
+			a.EndBlock(abcitypes.RequestEndBlock{Height: h})
+			if i%150 == 0 {
+				a.LastSaved = time.Now().Add(-time.Hour) // timer expired: this Commit saves
+			} else {
+				a.LastSaved = time.Now() // timer running: this Commit does not save
+			}
+			cr := a.Commit()
+			if i%150 == 0 {
+				if b, e := app.LoadShutterAppFromFile(path); e == nil {
+					saved = b.LastBlockHeight
+				}
+			}
+			write(persistLine{K: "commit", H: h, Saved: saved, Retain: cr.RetainHeight, Loaded: "-"})
+			res.Commits++
+		}
+		// leave a loadable file of the original replica behind for nothing else; the directory is removed
+	}
 	if res.Sample == nil {
 		res.Sample = map[string]any{"save_with_write_failure_at_byte": limits[3], "encoding_size": size, "loaded_afterwards": "old"}
 	}
 	// model check PersistFile, then validate the trace
 	mres, err := tlc.Run(tlc.Opts{Module: "PersistFile", Workers: 2, Timeout: 5 * time.Minute, HeapGB: 2,
-		CfgText: "CONSTANTS\n L = 4\n MaxV = 3\nSPECIFICATION Spec\nINVARIANT C13_MainLoadable\nINVARIANT C13_MainIsLastOk\nINVARIANT C13_NeverAhead\nCHECK_DEADLOCK FALSE\n"})
+		CfgText: "CONSTANTS\n L = 4\n MaxV = 4\n RetainRule = \"zero\"\nSPECIFICATION Spec\nINVARIANT C13_MainLoadable\nINVARIANT C13_MainIsLastOk\nINVARIANT C13_NeverAhead\nINVARIANT C13_BlocksKept\nCHECK_DEADLOCK FALSE\n"})
 	if err != nil {
 		return nil, nil, err
 	}
 	if mres.Errored != "" || mres.Violation || !mres.Completed {
 		return nil, mres, fmt.Errorf("PersistFile model check failed: %s %s", mres.Errored, mres.ViolatedWhat)
+	}
+	// vacuity guard: under the named alternative "recent" the model must be able to lose a needed block
+	alt, err := tlc.Run(tlc.Opts{Module: "PersistFile", Workers: 2, Timeout: 5 * time.Minute, HeapGB: 2,
+		CfgText: "CONSTANTS\n L = 2\n MaxV = 4\n RetainRule = \"recent\"\nSPECIFICATION Spec\nINVARIANT C13_BlocksKept\nCHECK_DEADLOCK FALSE\n"})
+	if err != nil {
+		return nil, mres, err
+	}
+	if alt.Errored != "" || !alt.Violation {
+		return nil, mres, fmt.Errorf("PersistFile model cannot express a lost block (RetainRule=recent holds C13_BlocksKept): %s", alt.Errored)
 	}
 	mod := "TRgen_PersistFile"
 	tres, err := tlc.Run(tlc.Opts{Module: mod, Workers: 1, Timeout: 10 * time.Minute, HeapGB: 2,
